@@ -197,6 +197,20 @@ def _field_sdl(f, rng=None, tags=False):
     return "%s%s: %s%s" % (f["name"], args, render_type(f["type"]), dirs)
 
 
+def _type_dirs(rng, tags, own=""):
+    """custom directives on a type definition, before / after / around the directive the generator looks at (`own`)"""
+    if not tags or rng is None:
+        return own
+    r = rng.random()
+    if r < 0.3:
+        return ' @tag(name: "t")' + own
+    if r < 0.45:
+        return own + ' @tag(name: "oneOf")'
+    if r < 0.6:
+        return ' @tag(name: "a") @owner' + own + ' @tag(name: "b")'
+    return own
+
+
 def render_sdl(schema, rng=None, order=None, extend=False, comments=False, multiline=True, declare_builtins=False, tags=False):
     """order: list of names (default schema.order). extend: split a random subset of the
     fields of some object types into `extend type` blocks (needs rng)."""
@@ -223,11 +237,11 @@ def render_sdl(schema, rng=None, order=None, extend=False, comments=False, multi
         k = d["kind"]
         desc = _descr(rng, "block" if comments else "line") if comments else ""
         if k == "scalar":
-            out.append(desc + "scalar %s" % n)
+            out.append(desc + "scalar %s%s" % (n, _type_dirs(rng, tags)))
         elif k == "enum":
-            out.append(desc + "enum %s {%s%s\n}" % (n, sep, sep.join(d["values"])))
+            out.append(desc + "enum %s%s {%s%s\n}" % (n, _type_dirs(rng, tags), sep, sep.join(v + (' @tag(name: "v")' if (tags and rng is not None and rng.random() < 0.2) else "") for v in d["values"])))
         elif k == "interface":
-            out.append(desc + "interface %s {%s%s\n}" % (n, sep, sep.join(_field_sdl(f, rng, tags) for f in d["fields"])))
+            out.append(desc + "interface %s%s {%s%s\n}" % (n, _type_dirs(rng, tags), sep, sep.join(_field_sdl(f, rng, tags) for f in d["fields"])))
         elif k == "object":
             fields = list(d["fields"])
             impl = list(d.get("implements", []))
@@ -242,7 +256,7 @@ def render_sdl(schema, rng=None, order=None, extend=False, comments=False, multi
                     k = rng.randint(1, len(impl))
                     impl, ext_impl = impl[: len(impl) - k], impl[len(impl) - k:]
             impl_s = (" implements " + " & ".join(impl)) if impl else ""
-            out.append(desc + "type %s%s {%s%s\n}" % (n, impl_s, sep, sep.join(_field_sdl(f, rng, tags) for f in fields)))
+            out.append(desc + "type %s%s%s {%s%s\n}" % (n, impl_s, _type_dirs(rng, tags), sep, sep.join(_field_sdl(f, rng, tags) for f in fields)))
             if ext_f:
                 # one, two or three `extend type` blocks for the same type (order of fields preserved)
                 chunks = [ext_f]
@@ -255,11 +269,12 @@ def render_sdl(schema, rng=None, order=None, extend=False, comments=False, multi
                     ext_impl_s = (" implements " + " & ".join(ext_impl)) if (ext_impl and ci == 0) else ""
                     ext_blocks.append("extend type %s%s {%s%s\n}" % (n, ext_impl_s, sep, sep.join(_field_sdl(f, rng, tags) for f in chunk)))
         elif k == "union":
-            out.append(desc + "union %s = %s" % (n, " | ".join(d["members"])))
+            out.append(desc + "union %s%s = %s" % (n, _type_dirs(rng, tags), " | ".join(d["members"])))
         elif k == "input":
-            one = " @oneOf" if d.get("one_of") else ""
+            one = _type_dirs(rng, tags, " @oneOf" if d.get("one_of") else "")
             dfl = d.get("defaults") or {}
-            out.append(desc + "input %s%s {%s%s\n}" % (n, one, sep, sep.join("%s: %s%s" % (f, render_type(t), (" = " + dfl[f]) if f in dfl else "") for f, t in d["fields"])))
+            out.append(desc + "input %s%s {%s%s\n}" % (n, one, sep, sep.join("%s: %s%s%s" % (f, render_type(t), (" = " + dfl[f]) if f in dfl else "",
+                                                                                           ' @tag(name: "f")' if (tags and rng is not None and rng.random() < 0.15) else "") for f, t in d["fields"])))
     # the order of definitions in an SDL document carries no meaning: some extensions go to the end, others anywhere -
     # also in front of the type they extend (schemas concatenated from per-feature files)
     first = 1 if (out and out[0].startswith("#")) else 0
@@ -276,7 +291,8 @@ def render_sdl(schema, rng=None, order=None, extend=False, comments=False, multi
             out += group
         i = j
     if tags and rng is not None:
-        out.insert(0, "directive @tag(name: String) repeatable on FIELD_DEFINITION | OBJECT\n\ndirective @owner on FIELD_DEFINITION")
+        out.insert(0, "directive @tag(name: String) repeatable on FIELD_DEFINITION | OBJECT | INTERFACE | UNION | SCALAR | ENUM | ENUM_VALUE | INPUT_OBJECT | INPUT_FIELD_DEFINITION\n\n"
+                      "directive @owner on FIELD_DEFINITION | OBJECT | INTERFACE | UNION | SCALAR | ENUM | INPUT_OBJECT")
     if declare_builtins:
         # schema dumps of several servers / tools list the built-in scalars explicitly; that is legal SDL
         out = ["scalar %s" % b for b in (declare_builtins if isinstance(declare_builtins, list) else BUILTIN_SCALARS)] + out
